@@ -16,6 +16,10 @@ CLAIMED = {
             'kernel sizes, dilations, strides, BatchNorm modes enumerated. Composition over whole architectures is not decided.', '3 C01'),
     'C02': ('other', 'Per layer, per-layer search (as the statement restricts): eval-mode forward of MPSConv2d/Conv1d/Linear/Identity == forward of the Quant* layer '
             'export() builds, on every input; exported precisions == summary(); trained quantizer objects re-used. Wiring across layers not decided.', '3 C02'),
+    'C03': ('other', 'Bounded in topology (never counted as a proof over all SuperNets): the real export_graph / link_combiners_to_branches run on torch.fx graphs of '
+            'enumerated topologies (1..3 choice blocks of 2..3 and 12 branches: single layer, two-layer sequence, identity; a block invoked twice) with symbolic '
+            'selection coefficients, weights and inputs; exported graph == hard-selection graph on every input, exactly the arg-max branches and the fixed layers '
+            'remain, outside layers untouched. Tracing and the fx graph mutators are assumed library contracts, cross-checked against the real torch.fx.', '0-bis C03'),
     'C04': ('other', 'What PIT layers show the cost function (discrete = exported sizes; open masks = original sizes for k = 1..16), params cost = parameter count of '
             'the exported layer, and PIT._get_single_cost summing the right layers / invocations (shared, per-invocation, full_cost, dict specs).', '3 C04'),
     'C05': ('other', 'Names and values MPS layers hand to cost functions, exact bit-cost under one-hot sampling (per-layer search), MPS._get_single_cost aggregation; '
@@ -56,8 +60,6 @@ CLAIMED = {
             'optimize_prec_assignment is not decided.', '3 C20'),
 }
 NA = {
-    'C03': 'graph surgery on the torch.fx IR (export_graph): no contract on a plinio function can state it without a hand model of fx; its two '
-           'contract-expressible clauses (winner = arg-max, hard forward = winner output) are discharged under C10',
     'C17': 'torch state_dict / load_state_dict semantics over a module tree plus a closed-world claim about all attributes: not expressible as '
            'per-function contracts',
 }
